@@ -619,8 +619,14 @@ loopX1:     \
 loopX0:    \
     CMPQ len, $0   \
     JLE cryptoBlocksDone     \
+    MOVQ $0, (tmp) \  // the 1..15 byte tail is moved into the scratch block first: src must not be read 16 bytes wide
+    MOVQ $0, 8(tmp) \
+    MOVQ len, reg2 \
+    copyAsm(tmp,src,len,reg3)  \
+    SUBQ reg2, tmp \
+    MOVQ reg2, len \
     fillCounterX1()   \
-    cryptoBlockAsmRemain(rk,tmp,src,reg3,reg1,reg2,reg3,blockCount)  \
+    cryptoBlockAsmRemain(rk,tmp,tmp,reg3,reg1,reg2,reg3,blockCount)  \
     clearRight(tmp,len,reg3,reg2) \
     MOVQ len, reg2 \
     copyAsm(dst,tmp,len,reg3)  \
